@@ -97,6 +97,8 @@ class Interp:
     def _set(self, v, path, val):
         if not path:
             return val
+        if v is None:
+            v = Agg('uninit', 0, [])          # writing a field of not-yet-initialised memory (MaybeUninit)
         if isinstance(path[0], tuple) and path[0][0] == 'nd':
             _, i, j = path[0]
             if i >= len(v.rows) or j >= v.ncols:
@@ -200,6 +202,8 @@ class Interp:
         if 'hex' in j:
             return self.decode_bytes(bytes.fromhex(j['hex']), ty)
         if 'ptr' in j:
+            if ty.startswith('&[u8;') and j.get('pointee_hex') is not None:
+                return RefV(Cell(Agg('array', 0, [BV(8, b) for b in bytes.fromhex(j['pointee_hex'])]), 'constbytes'))
             return RefV(Cell(Opaque(('bytes', j.get('pointee_hex', '')[:32])), 'constmem'))
         raise Unsupported('constant %r' % (j,))
 
@@ -216,6 +220,10 @@ class Interp:
 
     def const_item(self, path, ty):
         c = self.facts.consts.get(path)
+        if c is None and path.endswith('SizedTypeProperties::SIZE'):
+            return BV(64, 8)       # only compared with 0 in the null-pointer check
+        if c is None and path.endswith('SizedTypeProperties::ALIGN'):
+            return BV(64, 8)       # type-dependent alignment used only in the compiler-inserted pointer checks (modelled pointers are 0x10000)
         if c is None:
             raise Unsupported('const item %s not in facts' % path)
         if 'hex' in c:
@@ -386,6 +394,9 @@ class Interp:
                 if isinstance(t, Agg) and t.kind == 'array':
                     return RefV(v.cell, v.path, (0, len(t.fields)))
             return v
+        if kind in ('Transmute', 'PointerExposeProvenance') and isinstance(v, RefV) and self.int_info(ty):
+            # pointer-to-integer (alignment / null checks the compiler inserts): every modelled allocation is non-null and aligned
+            return BV(self.int_info(ty)[0], 0x10000)
         if kind.startswith('PointerCoercion') or kind in ('PtrToPtr', 'Transmute', 'Subtype'):
             return v
         raise Unsupported('cast kind %s' % kind)
@@ -657,6 +668,23 @@ class Interp:
         while isinstance(cv, RefV):
             ref = cv
             cv = self.load(cv)
+        if isinstance(cv, Opaque) and isinstance(cv.tag, tuple) and cv.tag[0] == 'fn':
+            # a function item used as a callable (e.g. `.or_insert_with(Vec::new)`)
+            from ..facts import _strip_generics
+
+            class _C:
+                pass
+            cal = _C()
+            cal.full = cv.tag[1]
+            cal.name = cal.defname = _strip_generics(cv.tag[1])
+            cal.trait = None
+            m = self.overrides.get(cal.name) or MODELS.get(cal.name)
+            if m is not None:
+                return m(self, list(args), None, cal)
+            try:
+                return self.exec_body(self.facts.fn(cal.name), list(args))
+            except Exception:
+                raise Unsupported('call of function item %s' % cal.name)
         if not (isinstance(cv, Agg) and cv.kind.startswith('closure:')):
             raise Unsupported('call of non-closure %r' % (cv,))
         body = self.facts.bodies.get(cv.kind[8:])
@@ -1023,6 +1051,21 @@ def _iter_items(I, it):
     if isinstance(it, Agg) and it.kind == 'adt:std::ops::Range':
         lo, hi = I.conc(it.fields[0]), I.conc(it.fields[1])
         return [BV(it.fields[0].w, i) for i in range(lo, hi)]
+    if isinstance(it, MapV):
+        return [Agg('tuple', 0, [kv, cell.v]) for (kv, cell) in it.d.values()]
+    if type(it).__name__ == 'SetV':
+        return list(it.d.values())
+    if isinstance(it, Agg) and it.kind.startswith('adt:'):
+        # a crate-defined iterator: drive its own `next` body
+        cands = [n for n in I.facts.by_name if n.startswith('<' + it.kind[4:]) and n.endswith(' as std::iter::Iterator>::next')]
+        if len(cands) == 1:
+            cell = Cell(it, 'crate-iter')
+            out = []
+            for _ in range(1000000):
+                r = I.call_fn(cands[0], [RefV(cell)])
+                if r.variant != 1:
+                    return out
+                out.append(r.fields[0])
     raise Unsupported('not an iterator: %r' % (it,))
 
 
@@ -1050,6 +1093,13 @@ def m_into_iter(I, a, t, c):
         return v
     if type(v).__name__ == 'SetV':
         return Agg('iter', 0, [list(v.d.values()), 0])
+    if isinstance(v, MapV):
+        return Agg('iter', 0, [[Agg('tuple', 0, [kv, cell.v]) for (kv, cell) in v.d.values()], 0])
+    if isinstance(v, RefV) and isinstance(I.load(v), MapV):
+        m = I.load(v)
+        return Agg('iter', 0, [[Agg('tuple', 0, [RefV(Cell(kv, 'key')), RefV(cell)]) for (kv, cell) in m.d.values()], 0])
+    if isinstance(v, RefV) and type(I.load(v)).__name__ == 'SetV':
+        return Agg('iter', 0, [[RefV(Cell(x, 'elem')) for x in I.load(v).d.values()], 0])
     if isinstance(v, Agg) and v.kind == 'array':
         return Agg('iter', 0, [list(v.fields), 0])
     if isinstance(v, RefV):
@@ -1141,8 +1191,25 @@ def m_string_deref(I, a, t, c):
 def m_collect(I, a, t, c):
     items = _iter_items(I, a[0])
     full = c.full or ''
-    if 'String' in full:
-        return StrV(items)
+    target = full.split('::collect::<', 1)[1] if '::collect::<' in full else ''
+    if target.startswith(('hashbrown::HashMap', 'std::collections::HashMap')):
+        m = MapV()
+        for it in items:
+            it = deref_all(I, it) if isinstance(it, RefV) else it
+            kx, vx = it.fields
+            m.d[_mkey(kx)] = (kx, Cell(vx, 'mapval'))
+        return m
+    if target.startswith(('hashbrown::HashSet', 'std::collections::HashSet')):
+        return SetV([deref_all(I, x) if isinstance(x, RefV) else x for x in items])
+    if target.startswith('std::string::String') or (not target and 'String' in full):
+        out = []
+        for x in items:
+            x = deref_all(I, x) if isinstance(x, RefV) else x
+            if isinstance(x, StrV):
+                out.extend(x.chars)
+            else:
+                out.append(x)
+        return StrV(out)
     return Agg('array', 0, items)
 
 
@@ -1188,10 +1255,23 @@ def m_vec_deref(I, a, t, c):
 def m_vec_index(I, a, t, c):
     r = a[0]
     v = I.load(r)
-    if isinstance(a[1], Agg) and a[1].kind == 'adt:std::ops::Range':
-        lo, hi = I.conc(a[1].fields[0]), I.conc(a[1].fields[1])
-        if lo > hi or hi > len(v.fields):
-            raise Panic('SliceIndex', '%d..%d of %d' % (lo, hi, len(v.fields)), t.span)
+    if isinstance(a[1], Agg) and a[1].kind.startswith('adt:std::ops::Range'):
+        k = a[1].kind.split('::')[-1]
+        n = len(v.fields)
+        if k == 'Range':
+            lo, hi = I.conc(a[1].fields[0]), I.conc(a[1].fields[1])
+        elif k == 'RangeTo':
+            lo, hi = 0, I.conc(a[1].fields[0])
+        elif k == 'RangeFrom':
+            lo, hi = I.conc(a[1].fields[0]), n
+        elif k == 'RangeFull':
+            lo, hi = 0, n
+        elif k == 'RangeInclusive':
+            lo, hi = I.conc(a[1].fields[0]), I.conc(a[1].fields[1]) + 1
+        else:
+            raise Unsupported('Vec index with %r' % (a[1],))
+        if lo > hi or hi > n:
+            raise Panic('SliceIndex', '%d..%d of %d' % (lo, hi, n), t.span)
         return RefV(r.cell, r.path, (lo, hi - lo))
     i = I.conc(a[1], 'Vec index')
     if i >= len(v.fields):
@@ -1241,6 +1321,10 @@ class MapV:
 def _mkey(v):
     if isinstance(v, BV):
         return ('bv',) + v.key()
+    if isinstance(v, Agg) and v.kind == 'tuple':
+        return ('tuple',) + tuple(_mkey(x) for x in v.fields)
+    if isinstance(v, StrV):
+        return ('str', tuple(v.chars))
     if isinstance(v, Opaque):
         return ('op', v.tag)
     raise Unsupported('map key %r' % (v,))
@@ -2037,7 +2121,15 @@ SUFFIX_MODELS['needletail::parser::write_fasta'] = m_write_fasta
 def m_as_bytes(I, a, t, c):
     s = deref_all(I, a[0])
     if isinstance(s, StrV):
-        return _view1([BV(8, ord(ch)) if isinstance(ch, str) else ch for ch in s.chars])
+        out = []
+        for ch in s.chars:
+            if isinstance(ch, str):
+                out.extend(BV(8, b) for b in ch.encode('utf-8'))
+            elif isinstance(ch, BV) and ch.w == 32 and ch.val is not None:
+                out.extend(BV(8, b) for b in chr(ch.val).encode('utf-8'))     # a `char` pushed into the String
+            else:
+                out.append(ch)
+        return _view1(out)
     raise Unsupported('as_bytes of %r' % (s,))
 
 
@@ -2277,6 +2369,10 @@ def m_par_iter_mut(I, a, t, c):
     v = a[0]
     if isinstance(v, RefV):
         tgt = I.load(v)
+        if type(tgt).__name__ == 'SetV':
+            return Agg('iter', 0, [[RefV(Cell(x, 'elem')) for x in tgt.d.values()], 0])
+        if isinstance(tgt, MapV):
+            return Agg('iter', 0, [[Agg('tuple', 0, [RefV(Cell(kv, 'key')), RefV(cell)]) for (kv, cell) in tgt.d.values()], 0])
         if isinstance(tgt, Agg) and tgt.kind == 'array' and v.win is None:
             return Agg('iter', 0, [[RefV(v.cell, v.path + (i,)) for i in range(len(tgt.fields))], 0])
         cell, path, s, n = _slice(I, v)
@@ -2658,3 +2754,5 @@ def m_collect_into_vec(I, a, t, c):
 @model('rayon::iter::ParallelIterator::collect')
 def m_par_collect(I, a, t, c):
     return m_collect(I, a, t, c)
+
+from . import models_io  # noqa: E402,F401  (registers formatting / output / concurrency models)
